@@ -239,6 +239,12 @@ class Dumper:
             tb = x._drop_table if x._drop_table else None
             need(tb is None or isinstance(tb, Q.Table), "drop target")
             return "(TDrop %s %s)" % (self.oterm(tb), cbool(x._if_exists))
+        if type(x).__name__ == "MySQLLoadQueryBuilder":
+            need(set(x.__dict__) <= {"_load_file", "_into_table"}, "MySQLLoadQueryBuilder attributes")
+            need(x._load_file is None or isinstance(x._load_file, str), "load file")
+            tb = x._into_table if x._into_table else None
+            need(tb is None or isinstance(tb, Q.Table), "load target")
+            return "(TLoad %s %s)" % (copt(x._load_file), self.oterm(tb))
         need(isinstance(x, T.Term), "not a term: %s" % type(x).__name__)
         g = type(x).get_sql
         al = self.alias(x)
